@@ -119,8 +119,14 @@ def run(ctx):
                 rxn = a["reaction"]
                 l, p = rxn.split(">>")
                 side = l if a["carbon"] in ("products", "balanced") else p
-                if pipe.canon_multiset(side) != pipe.canon_multiset(".".join(a["sorted_reactants"])):
-                    ctx.fail("molecule-list-not-the-carbon-richer-side", case, {"side": side, "sorted_reactants": a["sorted_reactants"]})
+                want, got = pipe.canon_multiset(side), pipe.canon_multiset(".".join(a["sorted_reactants"]))
+                if want != got:
+                    extra, missing = got - want, want - got
+                    # the list is read from the row's 'reactants'/'products' keys, which Validator.check refreshes BEFORE it resets an
+                    # unsolved reaction: after the both-side shortcut they still hold the inserted water molecules
+                    stale = (not missing) and set(extra) == {"O"}
+                    ctx.fail("stale-side-keys-after-water-step" if stale else "molecule-list-not-the-carbon-richer-side", case,
+                             {"side": side, "sorted_reactants": a["sorted_reactants"]})
                 for smi, pat in zip(a["sorted_reactants"], a["mcs_results"]):
                     m, q = Chem.MolFromSmiles(smi), Chem.MolFromSmarts(pat)
                     if m is not None and q is not None and q.GetNumAtoms() and not m.HasSubstructMatch(q):
